@@ -57,7 +57,8 @@ RULE_TEXTS = ['r { top: 1px }', '@media tv { r { left: 0 } }', 'r {', '@import "
               # a prelude that is rejected in front of a block that is fine, and the other way round
               '@media 3x { c { top: 0 } }', '@media print and { c { top: 0 } d { left: 0 } }', '@media tv { c { top: 0 } @import "x"; }',
               '@media tv { c { top: 0 } } trailing', '@page :nosuch { margin: 1cm }', '@page :first { margin: 1cm; @nosuch-box { top: 0 } }',
-              'r { top: 0 } s { left: 0 }', ', { top: 0 }', 'nn|r { top: 0 }', '@font-face { font-family: x; } x', '@variables { y: 2px; } x']
+              'r { top: 0 } s { left: 0 }', ', { top: 0 }', 'nn|r { top: 0 }', '@font-face { font-family: x; } x', '@variables { y: 2px; } x',
+              '@TOP-LEFT { content: "x" }', '@Bottom-Center { top: 0 }', '@variables { d: blue }', '@variables { e: 1px; f: 2px }']
 LIST_TEXTS = ['x { top: 0 } /* c */ y { left: 0 }', '@namespace l "http://l.example"; l|a { top: 0 }',
               '@font-face { font-family: "L"; src: url(l) } m { top: 0 }', '@import "l.css"; n { top: 0 }',
               '@page { margin: 0 } @media print { o { top: 0 } }', '@charset "ascii"; p { top: 0 }', '/* only */', '@foo l; q { top: 0 }',
@@ -396,3 +397,8 @@ SUBS = [
     Sub('history', check, strategy=strategy, quick=8000, thorough=200000, shards_quick=8, budget_quick=90),
     Sub('short', check, enumerate=exhaustive_cases, shards_quick=8, shards_thorough=16, budget_quick=90),
 ]
+
+
+from vlib.reported import reported_sub  # noqa: E402
+
+SUBS.append(reported_sub('C09'))
